@@ -143,7 +143,7 @@ static int gen_mode() {
         if (w.size() == 6 && w[0] == "ccmpenc") {
             bytes tk, h, pt;
             if (!parse_hex(w[1], tk) || tk.size() != 16 || !parse_hex(w[2], h) || h.size() < 24 || !parse_hex(w[5], pt)) return "bad-op";
-            size_t need = 24 + ((h[1] & 3) == 3 ? 6 : 0) + ((h[0] & 0x80) ? 2 : 0);
+            size_t need = 24 + ((h[1] & 3) == 3 ? 6 : 0) + ((h[0] & 0x80) ? 2 : 0) + (((h[0] & 0x80) && (h[1] & 0x80)) ? 4 : 0);
             if (h.size() < need) return "bad-op";
             return to_hex(ref::ccmp_encap(tk.data(), h, std::stoull(w[3]), unsigned(std::stoul(w[4])), pt));
         }
